@@ -72,7 +72,15 @@ def chain_rule(ctx):
                    ('accept_NavigationListNode', 604)):
         fn = repo.func(AP + '.' + h)
         ws = [w for w in chain.writer_sites(fn, (rel,)) if w.loop is not None]
-        ok = len(ws) == 1 and ws[0].call._parent._parent is ws[0].loop and ws[0].prev_var is not None
+        ok = len(ws) == 1 and ws[0].prev_var is not None
+        if ok:
+            # the relate is a statement of the loop body itself, or sits under a guard that only asks whether there is a previous
+            # element (`if prev:` / `if prev is not None:`; relate() with a None argument does nothing anyway)
+            holder = ws[0].call._parent._parent
+            pv = ws[0].prev_var
+            guard_ok = isinstance(holder, ast.If) and not holder.orelse and holder._parent is ws[0].loop and \
+                src(holder.test) in (pv, '%s is not None' % pv, 'bool(%s)' % pv, 'not %s is None' % pv, '%s != None' % pv)
+            ok = holder is ws[0].loop or guard_ok
         r.check(ok, '%s links every element to its neighbour over R%d' % (h, rel), fn, construct=AP + '.' + h, key='chain-every R%d' % rel,
                 msg='%s does not relate every element of the list to the previously visited one over R%d' % (h, rel))
         if ws and ws[0].loop is not None:
@@ -391,8 +399,14 @@ def types_rule(ctx, ki):
     for h, is_set in (('v_int', False), ('v_ins', True)):
         fn = repo.func(AP + '.' + h)
         lam = [n for n in ast.walk(fn) if isinstance(n, ast.Lambda)]
-        ok = len(lam) == 1 and (src(lam[0].body) == ('sel.isSet' if is_set else 'not sel.isSet')) and \
-            pm.contains('_I = one(o_obj).S_IRDT[123](_F)', fn) and pm.contains('relate(_V, _S, 848)', fn)
+        def _filter_text(l):
+            # a filter is only asked for its truth value: bool(x) is x there
+            b = l.body
+            while isinstance(b, ast.Call) and isinstance(b.func, ast.Name) and b.func.id == 'bool' and len(b.args) == 1 and not b.keywords:
+                b = b.args[0]
+            return src(b).replace(l.args.args[0].arg + '.', 'sel.') if l.args.args else src(b)
+        ok = len(lam) == 1 and (_filter_text(lam[0]) == ('sel.isSet' if is_set else 'not sel.isSet')) and \
+            any(pm.match('one(o_obj).S_IRDT[123](_F)', n_) is not None for n_ in ast.walk(fn) if isinstance(n_, ast.Call)) and pm.contains('relate(_V, _S, 848)', fn)
         r.check(ok, '%s: variable typed with the %s reference type of its class' % (h, 'set' if is_set else 'instance'), fn,
                 construct=AP + '.' + h, key='irdt', msg='%s does not select the S_IRDT with isSet == %s for the variable type' % (h, is_set))
     # R820 on every path for each created V_VAL
